@@ -356,25 +356,34 @@ GC_TAIL = """        await gather(
         self._closed.set()
 """
 v("28-closed-set-before-second-gather", [(P, GC_TAIL, "        self._closed.set()\n" + GC_TAIL.replace("        self._closed.set()\n", ""))], {"C08": "R08.1"})
-v("29-spawner-wait-suppressed-again", [(P, """        await gather(*self._meta_tasks_cancelled, return_exceptions=True)
-        await gather(
+GAC_WAIT1 = "        await gather(*self._meta_tasks_cancelled, return_exceptions=True)\n"
+GAC_COLL = """        # Collected only now: an overlapping `flush` may drop groups from the
+        # dictionary during the wait above, which breaks an earlier iterator.
+        not_cancelled_meta_tasks = (
+            task
+            for task_set in self._group_meta_tasks_running.values()
+            for task in task_set
+        )
+"""
+GAC_WAIT2 = """        await gather(
             *not_cancelled_meta_tasks,
             return_exceptions=return_exceptions,
         )
-""", """        with suppress(CancelledError):
+"""
+v("29-spawner-wait-suppressed-again", [(P, GAC_WAIT1 + GAC_COLL + GAC_WAIT2, GAC_COLL + """        with suppress(CancelledError):
             await gather(
                 *self._meta_tasks_cancelled,
                 *not_cancelled_meta_tasks,
                 return_exceptions=return_exceptions,
             )
 """)], {"C08": "R08.2"})
-v("29b-cancelled-spawners-gather-not-true", [(P, "        await gather(*self._meta_tasks_cancelled, return_exceptions=True)\n        await gather(\n            *not_cancelled_meta_tasks,", "        await gather(*self._meta_tasks_cancelled, return_exceptions=return_exceptions)\n        await gather(\n            *not_cancelled_meta_tasks,")], {"C08": "R08.2"})
+v("29b-cancelled-spawners-gather-not-true", [(P, GAC_WAIT1 + GAC_COLL, GAC_WAIT1.replace("return_exceptions=True", "return_exceptions=return_exceptions") + GAC_COLL)], {"C08": "R08.2"})
 v("30-running-left-out-of-gather", [(P, "            *self._tasks_cancelled.values(),\n            *self._tasks_running.values(),\n            return_exceptions=return_exceptions,", "            *self._tasks_cancelled.values(),\n            return_exceptions=return_exceptions,")], {"C08": "R08.1"})
 v("30b-running-spawners-not-awaited", [(P, "        await gather(\n            *not_cancelled_meta_tasks,\n            return_exceptions=return_exceptions,\n        )\n", "")], {"C08": "R08.1"})
-v("30c-lock-after-first-wait", [(P, "        self.lock()\n        not_cancelled_meta_tasks = (", "        not_cancelled_meta_tasks = ("), (P, "        self._meta_tasks_cancelled.clear()\n        self._group_meta_tasks_running.clear()\n", "        self.lock()\n        self._meta_tasks_cancelled.clear()\n        self._group_meta_tasks_running.clear()\n")], {"C08": "R08.1"})
+v("30c-lock-after-first-wait", [(P, "        self.lock()\n        # A meta task cancelled before it ever ran", "        # A meta task cancelled before it ever ran"), (P, "        self._meta_tasks_cancelled.clear()\n        self._group_meta_tasks_running.clear()\n", "        self.lock()\n        self._meta_tasks_cancelled.clear()\n        self._group_meta_tasks_running.clear()\n")], {"C08": "R08.1", "C03": "R03.11", "C02": "R02.11"})
 v("30d-unlock-reopens-closed-pool", [(P, "        if self._locked:\n            self._locked = False\n", "        if self._locked:\n            self._locked = False\n            self._closed.clear()\n")], {"C08": "R08.1"})
-v("30e-tasks-before-spawners", [(P, "        await gather(*self._meta_tasks_cancelled, return_exceptions=True)\n        await gather(\n            *not_cancelled_meta_tasks,\n            return_exceptions=return_exceptions,\n        )\n", ""),
-   (P, "        self._tasks_ended.clear()\n        self._tasks_cancelled.clear()\n        self._tasks_running.clear()\n        self._closed.set()", "        await gather(*self._meta_tasks_cancelled, return_exceptions=True)\n        await gather(\n            *not_cancelled_meta_tasks,\n            return_exceptions=return_exceptions,\n        )\n        self._tasks_ended.clear()\n        self._tasks_cancelled.clear()\n        self._tasks_running.clear()\n        self._closed.set()")], {"C08": "R08.1"})
+v("30e-tasks-before-spawners", [(P, GAC_WAIT1 + GAC_COLL + GAC_WAIT2, ""),
+   (P, "        self._tasks_ended.clear()\n        self._tasks_cancelled.clear()\n        self._tasks_running.clear()\n        self._closed.set()", GAC_WAIT1 + GAC_COLL + GAC_WAIT2 + "        self._tasks_ended.clear()\n        self._tasks_cancelled.clear()\n        self._tasks_running.clear()\n        self._closed.set()")], {"C08": "R08.1"})
 v("30f-running-not-forgotten-on-close", [(P, "        self._tasks_cancelled.clear()\n        self._tasks_running.clear()\n        self._closed.set()", "        self._tasks_cancelled.clear()\n        self._closed.set()")], {"C08": "R08.1"})
 v("31-locked-before-closed", [(P, "        if self._closed.is_set():\n            raise PoolIsClosed\n        if self._locked and not ignore_lock:\n            raise PoolIsLocked\n", "        if self._locked and not ignore_lock:\n            raise PoolIsLocked\n        if self._closed.is_set():\n            raise PoolIsClosed\n")], {"C09": "R09.2", "C08": "R08.3"})
 v("32-apply-registers-before-check", [(P, "        self._check_start(function=func)\n        if group_name is None:\n            group_name = self._generate_group_name(\"apply\", func)\n        if group_name in self._task_groups:\n            raise TaskGroupAlreadyExists(group_name)\n        self._task_groups.setdefault(group_name, TaskGroupRegister())\n",
@@ -1180,7 +1189,15 @@ v("dispatch-table-rows-swapped", [(SESS, "    (_is_method_command, \"_exec_metho
 v("P-derived-kwargs-dictionary", [], {"C17": "ok", "C16": "ok"}, base="rf158")
 v("derived-kwargs-store-false", [(PA, "                derived_kwargs[\"action\"] = \"store_true\"\n", "                derived_kwargs[\"action\"] = \"store_false\"\n")], {"C17": "R17.3"}, base="rf158")
 v("session-parameter-named-like-a-pool-parameter", [(SESS, "        method: Callable[..., Any],\n        **kwargs: Any,\n    ) -> None:\n        \"\"\"\n        Takes a method, executes it", "        func: Callable[..., Any],\n        **kwargs: Any,\n    ) -> None:\n        \"\"\"\n        Takes a method, executes it"), (SESS, "            method.__name__,\n        )\n        normal_pos", "            func.__name__,\n        )\n        normal_pos"), (SESS, "        for param in signature(method).parameters.values():", "        for param in signature(func).parameters.values():"), (SESS, "            method, *normal_pos, *var_pos, **kwargs\n", "            func, *normal_pos, *var_pos, **kwargs\n")], {"C18": "R18.10", "C17": "R17.15"})
-v("close-clears-spawner-table-before-waiting", [(P, "        await gather(*self._meta_tasks_cancelled, return_exceptions=True)\n        await gather(\n            *not_cancelled_meta_tasks,", "        not_cancelled_meta_tasks = list(not_cancelled_meta_tasks)\n        self._group_meta_tasks_running.clear()\n        await gather(*self._meta_tasks_cancelled, return_exceptions=True)\n        await gather(\n            *not_cancelled_meta_tasks,")], {"C07": "R07.7", "C08": "alarm"})
+v("close-clears-spawner-table-before-waiting", [(P, GAC_WAIT1 + GAC_COLL + GAC_WAIT2, GAC_COLL + "        not_cancelled_meta_tasks = list(not_cancelled_meta_tasks)\n        self._group_meta_tasks_running.clear()\n" + GAC_WAIT1 + GAC_WAIT2)], {"C07": "R07.7", "C08": "alarm"})
+# F11 (fixed by 68001df): the iterator over the dictionary of running spawners is taken before the first wait and advanced after it
+v("close-collects-before-first-wait", [(P, GAC_WAIT1 + GAC_COLL, GAC_COLL + GAC_WAIT1)], {"C08": "R08.12", "C12": "R12.7", "C04": "ok", "C05": "ok"})
+v("close-copies-spawner-sets-before-first-wait", [(P, GAC_WAIT1 + GAC_COLL, GAC_COLL.replace("self._group_meta_tasks_running.values()", "list(self._group_meta_tasks_running.values())") + GAC_WAIT1)], {"C08": "R08.12", "C04": "R04.12", "C05": "R05.14"})
+v("close-copies-tasks-before-spawner-wait", [(P, GAC_WAIT1 + GAC_COLL, "        tasks = [*self._tasks_ended.values(), *self._tasks_cancelled.values(), *self._tasks_running.values()]\n" + GAC_WAIT1 + GAC_COLL),
+   (P, "            *self._tasks_ended.values(),\n            *self._tasks_cancelled.values(),\n            *self._tasks_running.values(),\n            return_exceptions=return_exceptions,\n        )\n        self._tasks_ended.clear()", "            *tasks,\n            return_exceptions=return_exceptions,\n        )\n        self._tasks_ended.clear()")], {"C08": "viol", "C04": "R04.12"})
+v("P-close-lazy-chain-before-first-wait", [(P, GAC_WAIT1 + GAC_COLL, "        not_cancelled_meta_tasks = chain.from_iterable(self._group_meta_tasks_running.values())\n" + GAC_WAIT1),
+   (P, "import logging\nimport warnings\n", "import logging\nimport warnings\nfrom itertools import chain\n")], {"C08": "ok", "C12": "ok", "C04": "ok", "C05": "ok"})
+v("P-close-collects-inside-the-gather", [(P, GAC_COLL + GAC_WAIT2, "        await gather(\n            *(task for task_set in self._group_meta_tasks_running.values() for task in task_set),\n            return_exceptions=return_exceptions,\n        )\n")], {"C08": "ok", "C12": "ok", "C05": "ok"})
 v("ending-shadows-its-task-id", [(P, "        self._enough_room.release()\n        log.info(\"Ended %s\", self._task_name(task_id))\n", "        self._enough_room.release()\n        for task_id in [i for i, t in self._tasks_cancelled.items() if t.done()]:\n            log.debug(\"%s\", task_id)\n        log.info(\"Ended %s\", self._task_name(task_id))\n")], {"C11": "R11.4"})
 v("omit-default-is-a-string", [(PA, "OMIT_PARAMS_DEFAULT = (\"self\",)\n", "OMIT_PARAMS_DEFAULT = \"self\"\n")], {"C16": "R16.8", "C17": "R17.10"})
 v("dispatch-executors-swapped", [(SESS, "        if isfunction(command):\n            await self._exec_method_and_respond(command, **kwargs)\n        elif isinstance(command, property):\n            await self._exec_property_and_respond(command, **kwargs)\n", "        if isfunction(command):\n            await self._exec_property_and_respond(command, **kwargs)\n        elif isinstance(command, property):\n            await self._exec_method_and_respond(command, **kwargs)\n")], {"C17": "alarm"})
@@ -1197,3 +1214,18 @@ v("P-words-in-a-local", [(SESS, "            kwargs = vars(self._parser.parse_ar
 v("parser-overrides-parse-args", [(PA, "    def _print_message(self, message: str, *_args: Any, **_kwargs: Any) -> None:\n", "    def parse_args(self, args=None, namespace=None):  # type: ignore[override]\n        if args is not None:\n            args = [a.replace(\"_\", \"-\") if a.startswith(\"--\") else a for a in args]\n        return super().parse_args(args, namespace)\n\n    def _print_message(self, message: str, *_args: Any, **_kwargs: Any) -> None:\n")], {"C17": "R17.12", "C16": "R16.6"})
 v("stop-fast-path-truthy-id", [(P, "        ids = []\n        for i, task_id in enumerate(reversed(self._tasks_running)):\n", "        ids = []\n        newest = next(reversed(self._tasks_running), None)\n        if num == 1 and not newest:\n            return []\n        for i, task_id in enumerate(reversed(self._tasks_running)):\n")], {"C14": "R14.1"})
 v("close-skips-final-wait-when-nothing-runs", [(P, "        await gather(\n            *self._tasks_ended.values(),\n            *self._tasks_cancelled.values(),\n            *self._tasks_running.values(),\n            return_exceptions=return_exceptions,\n        )\n", "        if self._tasks_running:\n            await gather(\n                *self._tasks_ended.values(),\n                *self._tasks_cancelled.values(),\n                *self._tasks_running.values(),\n                return_exceptions=return_exceptions,\n            )\n")], {"C02": "R02.11", "C08": "viol", "C12": "viol"})
+# rf170: the callbacks travel in a NamedTuple unpacked with **rec._asdict() (normaliser: _RecordDicts)
+v("P-callbacks-record-asdict", [], {"C04": "ok", "C05": "ok", "C03": "ok", "C12": "ok"}, base="rf170")
+v("record-end-callback-not-wrapped", [(P, "            end_callback=self._get_map_end_callback(\n                semaphore, actual_end_callback=end_callback\n            ),\n            cancel_callback=cancel_callback,\n        )\n        acquire_semaphore", "            end_callback=end_callback,\n            cancel_callback=cancel_callback,\n        )\n        self._get_map_end_callback(semaphore, actual_end_callback=end_callback)\n        acquire_semaphore")], {"C05": "viol"}, base="rf170")
+v("record-fields-crossed", [(P, "        callbacks = _TaskCallbacks(\n            end_callback=end_callback,\n            cancel_callback=cancel_callback,\n        )\n        coroutine: Coroutine", "        callbacks = _TaskCallbacks(\n            end_callback=cancel_callback,\n            cancel_callback=end_callback,\n        )\n        coroutine: Coroutine")], {"C04": "any", "C03": "viol"}, base="rf170")
+v("record-rebound-before-use", [(P, "        coroutine: Coroutine[_R, Any, Any]\n        for iteration in range(num):", "        coroutine: Coroutine[_R, Any, Any]\n        callbacks = _TaskCallbacks(end_callback=None, cancel_callback=None)\n        for iteration in range(num):")], {"C03": "alarm"}, base="rf170")
+# a spawner that does not pass the request's callbacks on: they never run
+v("apply-spawner-drops-end-callback", [(P, "                    group_name=group_name,\n                    end_callback=end_callback,\n                    cancel_callback=cancel_callback,\n                )\n            except CancelledError:\n                # Either the task group or all tasks were cancelled, so this\n                # meta tasks is not supposed to spawn any more tasks and can\n                # return immediately.\n                log.debug(\n                    \"Cancelled group '%s' after %s out of %s \"", "                    group_name=group_name,\n                    cancel_callback=cancel_callback,\n                )\n            except CancelledError:\n                # Either the task group or all tasks were cancelled, so this\n                # meta tasks is not supposed to spawn any more tasks and can\n                # return immediately.\n                log.debug(\n                    \"Cancelled group '%s' after %s out of %s \"")], {"C03": "viol"})
+v("apply-spawner-drops-cancel-callback", [(P, "                    group_name=group_name,\n                    end_callback=end_callback,\n                    cancel_callback=cancel_callback,\n                )\n            except CancelledError:\n                # Either the task group or all tasks were cancelled, so this\n                # meta tasks is not supposed to spawn any more tasks and can\n                # return immediately.\n                log.debug(\n                    \"Cancelled group '%s' after %s out of %s \"", "                    group_name=group_name,\n                    end_callback=end_callback,\n                )\n            except CancelledError:\n                # Either the task group or all tasks were cancelled, so this\n                # meta tasks is not supposed to spawn any more tasks and can\n                # return immediately.\n                log.debug(\n                    \"Cancelled group '%s' after %s out of %s \"")], {"C03": "viol"})
+# R00.M, class-body clause: a container created once in a class body and filled through the instance is shared by all instances
+_SRVF = "control/server.py"
+v("server-connection-count-in-class-body-list", [(_SRVF, "    _client_class: type[ClientT]\n", "    _client_class: type[ClientT]\n    _seen: list = []\n"), (_SRVF, "        session = ControlSession(self, reader, writer)\n", "        session = ControlSession(self, reader, writer)\n        self._seen.append(id(writer))\n")], {"C19": "R00.M", "C16": "R00.M"})
+v("P-server-connection-list-per-instance", [(_SRVF, "    _client_class: type[ClientT]\n", "    _client_class: type[ClientT]\n    _seen: list\n"), (_SRVF, "        self._server: AbstractServer | None = None\n", "        self._server: AbstractServer | None = None\n        self._seen = []\n"), (_SRVF, "        session = ControlSession(self, reader, writer)\n", "        session = ControlSession(self, reader, writer)\n        self._seen.append(id(writer))\n")], {"C19": "ok", "C16": "ok"})
+# R18.3 (i'): the parser hooks run inside parse_args
+v("parser-error-wraps-message-to-client-width", [(PA, "        super().error(message=message)\n", "        import textwrap\n        message = textwrap.fill(message, width=self._terminal_width, max_lines=10)\n        super().error(message=message)\n")], {"C18": "R18.3"})
+v("P-parser-error-strips-message", [(PA, "        super().error(message=message)\n", "        message = message.strip()\n        super().error(message=message)\n")], {"C18": "ok", "C17": "ok"})
